@@ -175,7 +175,11 @@ static void case_pins(const Args &a, long idx, bool wantDesc, CaseResult &res) {
                     // signature of F36: orthogonal connector fell back to the 2-point straight line between shape centres / free points
                     bool fallback = disp.size() == 2 && rp.x == (s.x0 + s.x1) / 2.0 && rp.y == (s.y0 + s.y1) / 2.0;
                     res.count("pin_connector_fallbacks");
-                    res.violate(rival ? "pin-end-not-at-a-pin-of-its-class[class-shared-with-checkpoint-connector]" : fallback ? std::string("pin-connector-fell-back-to-straight-line[") + (orth ? "orthogonal]" : "polyline]") : "pin-end-not-at-a-pin-of-its-class", wit("route end is not the position of any pin of the class on that shape")); continue;
+                    // the class offers a non-exclusive pin with all directions open and another connector uses the class too: nothing restricts this end
+                    bool openShared = false, otherUser = false;
+                    for (auto &p : s.pins) if (p.cls == e.cls && !expectedExclusive(p) && expectedDirs(p) == (unsigned)Avoid::ConnDirAll) openShared = true;
+                    for (size_t o = 0; o < conns.size(); o++) if (o != c) for (int q = 0; q < 2; q++) if (conns[o].e[q].kind == 1 && conns[o].e[q].shape == e.shape && conns[o].e[q].cls == e.cls) otherUser = true;
+                    res.violate(rival ? "pin-end-not-at-a-pin-of-its-class[class-shared-with-checkpoint-connector]" : fallback ? std::string("pin-connector-fell-back-to-straight-line[") + (orth ? "orthogonal" : "polyline") + (openShared && otherUser ? ",open-shared-pin-already-in-use]" : "]") : "pin-end-not-at-a-pin-of-its-class", wit("route end is not the position of any pin of the class on that shape")); continue;
                 }
                 {   // all pins of the class at exactly this position form one group: its capacity is the number of exclusive pins, unlimited if one is shared
                     int cap = 0; bool shared = false; unsigned dirsHere = 0;
@@ -225,11 +229,8 @@ static void case_pins(const Args &a, long idx, bool wantDesc, CaseResult &res) {
         for (auto &kv : exclUse) if (kv.second > exclCap[kv.first]) res.violate("exclusive-pin-used-by-several-connectors", JObj().i("transaction", txn).i("shape", kv.first.first.first).i("class", kv.first.first.second).raw("position", JArr().num(kv.first.second.first).num(kv.first.second.second).done()).i("connector_ends", kv.second).i("exclusive_pins_there", exclCap[kv.first]).raw("history", hist.done()).done());
     };
 
-    set_stage("processTransaction"); router->processTransaction(); hist.raw(JObj().str("op", "processTransaction").done());
-    monitor(0);
-    int ntx = (int)R.ri(0, 4);
-    for (int tx = 1; tx <= ntx && res.findings.empty(); tx++) {
-        int nops = (int)R.ri(1, 2); std::set<int> touched;
+    auto moveOps = [&](int nops) {
+        std::set<int> touched;
         for (int o = 0; o < nops; o++) {
             int s = (int)R.ri(0, (long)shapes.size() - 1); if (touched.count(s)) continue;
             LShape &ls = shapes[s];
@@ -246,6 +247,15 @@ static void case_pins(const Args &a, long idx, bool wantDesc, CaseResult &res) {
                 ls.x0 = x0; ls.y0 = y0; ls.x1 = x0 + w; ls.y1 = y0 + h; touched.insert(s); D.i(s); D.i(x0); D.i(y0); D.i(w); D.i(h); res.count(resize ? "resizes" : "moves"); break;
             }
         }
+    };
+    // shapes may be moved or resized while their addition is still queued (before the first processTransaction)
+    bool earlyMoves = R.coin(0.25);
+    if (earlyMoves) { set_stage("moves-before-first-transaction"); moveOps((int)R.ri(1, 3)); res.count("scenes_with_moves_before_the_first_transaction"); }
+    set_stage("processTransaction"); router->processTransaction(); hist.raw(JObj().str("op", "processTransaction").done());
+    monitor(0);
+    int ntx = (int)R.ri(0, 4);
+    for (int tx = 1; tx <= ntx && res.findings.empty(); tx++) {
+        moveOps((int)R.ri(1, 2));
         set_stage("processTransaction"); router->processTransaction(); hist.raw(JObj().str("op", "processTransaction").done());
         monitor(tx);
     }
